@@ -58,7 +58,7 @@ WIDE = [
      ["forall<'s> { dyn Foo + 's: Foo }", "forall<'s> { dyn Bar<$T> + 's: Bar<$T> }", "forall<'s> { exists<T> { dyn Bar<T> + 's: Bar<$T> } }",
       "forall<'s> { exists<T> { dyn Bar<$T> + 's: Bar<T> } }", "exists<T> { A: Bar<T> }", "forall<'s> { dyn Foo + 's: Bar<A> }"],
      ["A", "B"]),
-    ("custom-clauses", """trait Foo { } struct A { } struct B { } struct W<T> { } forall<T> { W<T>: Foo if T: Foo } A: Foo.""",
+    ("custom-clauses", """trait Foo { } struct A { } struct B { } struct W<T> { } forall<T> { W<T>: Foo if T: Foo } forall<> { A: Foo }""",
      ["$T: Foo", "exists<T> { T: Foo }", "exists<T> { W<T>: Foo }", "forall<T> { if (T: Foo) { W<W<T>>: Foo } }"],
      ["A", "B", "W<A>", "W<B>", "W<W<A>>"]),
     ("wf-fromenv", """trait Clone { } trait Ord where Self: Clone { } struct A { } struct S<T> where T: Ord { } impl Clone for A { } impl Ord for A { }""",
